@@ -95,6 +95,10 @@ class C12(Plugin):
                         g.loc, g.bloc, g.pars()
             except Exception:
                 pass
+        self.q_before = None
+        if run.cfg.get('cache_check') and op.get('fault'):
+            from . import queries
+            self.q_before = queries.query_tree(root, 2)  # every answer before the (expected to fail) request
         _SPLICES[0] = 0
         return run.snapshot()
 
@@ -137,14 +141,12 @@ class C12(Plugin):
             raise Violation('tree_changed_by_failed_edit', f'{O.exc_repr(e)} | {_first_diff(dump, d2)}')
         if modifying_registry():
             raise Violation('lock_survives_failed_edit', f'{O.exc_repr(e)} | fst_core._MODIFYING has {len(modifying_registry())} entries')
-        if run.cfg.get('cache_check'):  # no half-updated cached answer survives the failed edit
-            import fst
+        if self.q_before is not None:  # no half-updated cached answer survives the failed edit: every query answers as before
             from . import queries
             live = queries.query_tree(run.root, 2)
-            fresh = queries.query_tree(fst.FST(src, 'exec'), 2)
             run.stats['cache_checks_after_failure'] += 1
-            if live != fresh:
-                raise Violation('stale_answer_after_failed_edit', f'{O.exc_repr(e)} | ' + repr(queries.diff(live, fresh))[:1200])
+            if live != self.q_before:
+                raise Violation('answer_changed_by_failed_edit', f'{O.exc_repr(e)} | ' + repr(queries.diff(live, self.q_before))[:1200])
         self.probe_pending = True
 
     def finish(self):
